@@ -76,14 +76,14 @@ def spec_dir(scr, extra_files=()):
     return d
 
 
-_tlc_seq = [0]
+import itertools
+_tlc_seq = itertools.count(1)   # next() is atomic: drivers may start TLC runs from several threads
 
 
 def run_tlc(sdir, module, cfg, workers=None, timeout=1800, extra=(), coverage=False, heap=None, deque=False,
             expect_violation=False):
     """Run TLC. Returns TlcResult. Raises Broken on parse/semantic errors, timeouts, JVM failures."""
-    _tlc_seq[0] += 1
-    md = os.path.join(sdir, "md%d" % _tlc_seq[0])
+    md = os.path.join(sdir, "md%d" % next(_tlc_seq))
     cmd = ["java", "-XX:+UseParallelGC"]
     if heap:
         cmd.append("-Xmx%s" % heap)
